@@ -257,7 +257,20 @@ def setSiteSrcLetters : List Char := ['S', 'T', 'Y']
 /-- translated from localcider/backend/sequence.py:Sequence.get_STY_residues (line 1827) -/
 def stySrcLetters : List Char := ['Y', 'S', 'T']
 
+/-- translated from localcider/backend/sequence.py:Sequence.validateSequence (loop at line 155) -/
+def validateCharSrc (in_AAs : Bool) (is_space : Bool) : Except Unit Bool :=
+  if (in_AAs = false) then
+    if (is_space = true) then
+      .ok false
+    else
+      .error ()
+  else
+    .ok true
+
+/-- initial value of the returned string | what the pool of accepted characters is built from -/
+def validateCharSrcFrame : String := "''|list(data.aminoacids.ONE_TO_THREE.keys())"
+
 /-- which decision functions could be translated on this run -/
-def translatedDecisions : List String := ["phasePlotRegion", "kappaDecision", "sigmaDecision", "checkWindow", "verifyPH", "insideRelevant", "fplusSrc", "fminusSrc", "fcrSrc", "ncprSrc", "ferSrc", "mncSrc", "deltaSrc", "deltaTermSrc", "flanksNCPR", "flanksFCR", "flanksSigma", "flanksHydro", "flanksHydro2", "flanksDensity", "omegaCharSrc", "omegaSeqCharSrc", "kappaX2CharSrc", "kappaX1CharSrc", "scdNest", "setSiteSrc", "stySrc"]
+def translatedDecisions : List String := ["phasePlotRegion", "kappaDecision", "sigmaDecision", "checkWindow", "verifyPH", "insideRelevant", "fplusSrc", "fminusSrc", "fcrSrc", "ncprSrc", "ferSrc", "mncSrc", "deltaSrc", "deltaTermSrc", "flanksNCPR", "flanksFCR", "flanksSigma", "flanksHydro", "flanksHydro2", "flanksDensity", "omegaCharSrc", "omegaSeqCharSrc", "kappaX2CharSrc", "kappaX1CharSrc", "scdNest", "setSiteSrc", "stySrc", "validateCharSrc"]
 
 end Cider.Gen
